@@ -82,6 +82,9 @@ type sched struct {
 	locks  map[*value]*lockState
 	wgs    map[*value]int
 	stats  struct{ switches, transitions int }
+	preemptBound int  // -1 = unbounded
+	preemptions  int
+	last         *gor // goroutine that ran most recently
 	labels []string
 }
 
@@ -91,7 +94,7 @@ type lockState struct {
 }
 
 func newSched(i *interpreter) *sched {
-	s := &sched{i: i, locks: make(map[*value]*lockState), wgs: make(map[*value]int)}
+	s := &sched{i: i, locks: make(map[*value]*lockState), wgs: make(map[*value]int), preemptBound: -1}
 	main := &gor{id: 0, wake: make(chan struct{}, 1), state: gRunning}
 	s.gs = []*gor{main}
 	s.cur = main
@@ -404,7 +407,29 @@ func (s *sched) dispatch(g *gor) {
 			}
 			k := 0
 			if len(ts) > 1 {
-				k = s.i.choose(len(ts), "sched")
+				// context bound: once the budget of preemptions is used up,
+				// the goroutine that ran last continues whenever it can
+				cands := ts
+				if s.preemptBound >= 0 && s.preemptions >= s.preemptBound {
+					var own []trans
+					for _, t := range ts {
+						if t.g == g || t.g2 == g {
+							own = append(own, t)
+						}
+					}
+					if len(own) > 0 {
+						cands = own
+					}
+				}
+				if len(cands) > 1 {
+					k = s.i.choose(len(cands), "sched")
+				}
+				t := cands[k]
+				if s.preemptBound >= 0 && t.g != g && t.g2 != g && g.state == gBlocked && s.canContinue(g, ts) {
+					s.preemptions++
+				}
+				s.fire(t)
+				continue
 			}
 			s.fire(ts[k])
 			continue
@@ -431,6 +456,16 @@ func (s *sched) dispatch(g *gor) {
 		}
 		return
 	}
+}
+
+// canContinue: g has an enabled transition of its own.
+func (s *sched) canContinue(g *gor, ts []trans) bool {
+	for _, t := range ts {
+		if t.g == g || t.g2 == g {
+			return true
+		}
+	}
+	return false
 }
 
 // block registers op for the current goroutine and waits until it fired.
